@@ -7,7 +7,7 @@ from props.c20 import OVERLAY
 VSYS = "github.com/panjf2000/gnet/v2/pkg/verifsys"
 
 PLAN = [
-    ("eventloop_unix.go", "unix.Read,unix.Close,unix.Recvfrom,io.Writev,socket.Dup,"
+    ("eventloop_unix.go", "unix.Read,unix.Write,unix.Close,unix.Recvfrom,io.Writev,socket.Dup,"
      "entry:register0:c.fd,entry:open:c.fd,entry:read:c.fd,entry:write:c.fd,entry:close:c.fd;err == nil,"
      "entry:wake:c.fd,entry:read0:a.(*conn).fd,entry:write0:a.(*conn).fd,entry:readUDP:fd,entry:closeConns"),
     ("connection_unix.go", "unix.Write,unix.Send,unix.Sendto,io.Writev,socket.Dup,entry:asyncWrite:c.fd,entry:asyncWritev:c.fd"),
